@@ -19,6 +19,7 @@ def run(prog, chk):
     reset_table(prog, chk)
     prepend_table(prog, chk)
     close_table(prog, chk)
+    process_table(prog, chk)
     _run(prog, chk)
 
 
@@ -500,3 +501,102 @@ def close_table(prog, chk):
                 what = "expected an error, the builder still open and every tree of %s still in the forest; source: status %s, root %s, slots %s (covering %s), lost %s, released %s" % (
                     sorted(before), hex(q.ret) if isinstance(q.ret, int) else q.ret, root, final_slots, sorted(kept), sorted(lost), sorted(released))
             chk.ob("C16.close", inst, ok, what, loc=fc.loc(), fn=fc, nontrivial=fail_at is not None)
+
+
+def process_table(prog, chk):
+    """processAndInsertNode over (how many leaf processors emit a node: 0, 1, 2, 3) x (what fails: nothing, processor k, join k, the
+    insertion): a refused leaf stays the caller's - it is not released and not left linked into anything that is released - every node
+    the function created itself is released exactly once, and on success nothing is released at all."""
+    import itertools
+    chk.rule("C16.process", "a refused leaf is handed back unharmed: the caller's node is never released with the local tree, local nodes "
+                            "are released exactly once (decision table over emitting processors and failure points)", floor=20)
+    fp = prog.fn("processAndInsertNode", "tree_builder.c")
+    bp, np_ = fp.params[0]["n"], fp.params[1]["n"]
+    for nproc, emit in [(0, ()), (1, (1,)), (1, (0,)), (2, (1, 1)), (2, (1, 0)), (2, (0, 1)), (3, (1, 1, 1))]:
+        nj = sum(emit)
+        fails = [None, ("insert",)] + [("proc", k) for k in range(nproc)] + [("join", k) for k in range(nj)]
+        for fail in fails:
+            lists = {"CB": [Ptr("cb%d" % k) for k in range(nproc)]}
+            from ksirules.interp import list_overrides
+            length, element_at = list_overrides(lists)
+            joins = []
+            freed = []
+            state = {"proc": 0}
+
+            def fallback(I, p, node, name, args, cv, emit=emit, fail=fail):
+                if name is None and isinstance(cv, Ptr) and cv.what.startswith("fn"):
+                    k = int(cv.what[2:])
+                    out = strip(node["a"][2])
+                    key = lvalue_key(out["e"], I.fn) if isinstance(out, dict) and out.get("k") == "un" else None
+                    if fail == ("proc", k):
+                        return 0x200
+                    if key:
+                        I.write(p, key, Ptr("P%d" % k) if emit[k] else 0)
+                    return 0
+                return TOP
+
+            def join(I, p, node, args, fail=fail):
+                k = len(joins)
+                joins.append((args[2], args[3]))
+                if fail == ("join", k):
+                    return 0x200
+                out = strip(node["a"][4])
+                nm = "J%d" % k
+                I.write(p, I.canon(p, I.key_of(p, out["e"])), Ptr(nm))
+                I.write(p, "%s->leftChild" % nm, args[2])
+                I.write(p, "%s->rightChild" % nm, args[3])
+                I.write(p, "%s->parent" % nm, 0)
+                for a in (args[2], args[3]):
+                    if isinstance(a, Ptr):
+                        I.write(p, "%s->parent" % a.what, Ptr(nm))
+                return 0
+
+            def free_(I, p, node, args):
+                # KSI_TreeNode_free releases the node and, recursively, whatever its child pointers reach at that moment
+                def sub(v, acc):
+                    if isinstance(v, Ptr) and v.what not in acc:
+                        acc.append(v.what)
+                        sub(I.read(p, "%s->leftChild" % v.what), acc)
+                        sub(I.read(p, "%s->rightChild" % v.what), acc)
+                    return acc
+                if isinstance(args[0], Ptr):
+                    freed.append(sub(args[0], []))
+                return TOP
+
+            def insert(I, p, node, args, fail=fail):
+                state["inserted"] = args[1]
+                return 0x104 if fail == ("insert",) else 0
+            ov = {"KSI_TreeBuilderLeafProcessorList_length": length, "KSI_TreeBuilderLeafProcessorList_elementAt": element_at, "KSI_TreeNode_join": join,
+                  "KSI_TreeNode_free": free_, "insertNode": insert}
+            inputs = {bp: Ptr("B"), np_: Ptr("N"), "B->ctx": Ptr("ctx"), "B->hsr": Ptr("hsr"), "B->cbList": Ptr("CB"), "N->parent": 0, "N->leftChild": 0, "N->rightChild": 0}
+            for k in range(nproc):
+                inputs["cb%d->fn" % k] = Ptr("fn%d" % k)
+                inputs["cb%d->c" % k] = Ptr("c%d" % k)
+                inputs["P%d->leftChild" % k] = 0
+                inputs["P%d->rightChild" % k] = 0
+                inputs["P%d->parent" % k] = 0
+            I = Interp(fp, inputs=inputs, call_model=succeed_model(prog, ov, fallback), on_unknown="stop", prog=prog, loop_bound=nproc + 3)
+            paths = I.run()
+            chk.paths += len(paths)
+            inst = "processAndInsertNode[%d processor(s), emitting %s,%s]" % (nproc, "".join(str(e) for e in emit) or "-", " nothing fails" if fail is None else
+                                                                              " %s%s fails" % (fail[0], "" if len(fail) == 1 else " %d" % (fail[1] + 1)))
+            if len(paths) != 1 or paths[0].undetermined:
+                raise AnalysisBroken("processAndInsertNode: evaluation not determined for %s: %s" % (inst, [q.undetermined[:1] for q in paths]))
+            q = paths[0]
+            flat = [x for grp in freed for x in grp]
+            twice = sorted({x for x in flat if flat.count(x) > 1})
+            if fail is None:
+                ok = q.ret == 0 and not flat
+                what = "expected KSI_OK and nothing released; source: status %s, released %s" % (q.ret, freed)
+            else:
+                # local nodes that exist at the failure point: every emitted processor node and every join result made so far
+                made = set()
+                for k in range(nproc):
+                    if emit[k] and (fail[0] in ("insert",) or (fail[0] == "proc" and k < fail[1]) or (fail[0] == "join" and sum(emit[:k]) <= fail[1])):
+                        made.add("P%d" % k)
+                njdone = nj if fail[0] == "insert" else (fail[1] if fail[0] == "join" else sum(emit[:fail[1]]))
+                made |= {"J%d" % k for k in range(njdone)}
+                ok = q.ret not in (0, TOP) and "N" not in flat and not twice and set(flat) == made and I.read(q, "N->parent") in (0,)
+                what = ("expected an error, the caller's node neither released nor left linked, local nodes %s released once each; source: status %s, released %s%s, "
+                        "caller's node parent %s" % (sorted(made), hex(q.ret) if isinstance(q.ret, int) else q.ret, freed, (" (twice: %s)" % twice) if twice else "", I.read(q, "N->parent")))
+            chk.ob("C16.process", inst, ok, what, loc=fp.loc(), fn=fp, nontrivial=fail is not None and nj >= 2)
